@@ -106,6 +106,46 @@ class ParseMonitor:
         mon.free_tool_id(self.TOOL)
 
 
+# (the synonyms and keywords dictionaries are used by reference by the tokenizer: what a later change of them
+# means is left open, they are not touched)
+SCRAMBLED = ("span_matchers", "skip_tokens")
+
+
+def make_llparser(tokenizer_str, **kw):
+    """LLParser(...) the way a caller does it who builds the configuration containers, hands them over and goes
+    on using them for something else: the parser gets its own copies of the containers in SCRAMBLED, and after
+    the construction these are emptied and filled with junk"""
+    mine = {}
+    for name in SCRAMBLED:
+        if kw.get(name) is not None:
+            mine[name] = kw[name] = type(kw[name])(kw[name]) if isinstance(kw[name], (dict, set, list)) else kw[name]
+    parser = llparser.LLParser(tokenizer_str, **kw)
+    for name, obj in mine.items():
+        if isinstance(obj, dict):
+            obj.clear()
+            obj["SPACE"] = obj["A"] = obj["WORD"] = obj["TEXT"] = "<changed later>" if name != "span_matchers" else r"(?P<END_X>x)"
+        elif isinstance(obj, set):
+            obj.clear()
+            obj.update(["A", "WORD", "a", "no such token"])
+        elif isinstance(obj, list):
+            del obj[:]
+    return parser
+
+
+class VfAlternatives(llparser.ProdsTemplate):
+    """a template written by the user of the package: it only generates the alternatives of its symbol and
+    leaves the result tree alone"""
+    CAN_POST_PROCESS_TELEM = False
+
+    def __init__(self, alternatives):
+        super().__init__()
+        self.alternatives = list(alternatives)
+
+    def gen_productions(self):
+        self._ensure_initialized()
+        yield self.result_symbol, list(self.alternatives)
+
+
 # ------------------------------------------------------------------ tokenizer configs
 class TokCfg:
     """a tokenizer configuration + how the harness writes a token of each terminal"""
@@ -143,8 +183,9 @@ class TokCfg:
         return out
 
     def make_parser(self, prods, start, **extra):
-        return llparser.LLParser(
-            self.tokenizer_str, productions={k: list(v) for k, v in prods.items()},
+        return make_llparser(
+            self.tokenizer_str,
+            productions={k: v if isinstance(v, llparser.ProdsTemplate) else list(v) for k, v in prods.items()},
             start_symbol_name=start, **self.kwargs, **extra)
 
     def render(self, rng, terms, dense=False):
@@ -256,6 +297,16 @@ TOKCFGS = [
         {'WORD': ['A', 'XY'], 'CONST': ['a', 'xy'], 'n': ['1', '20'], '=': ['=']},
         [" ", "\n", "  "],
         synonyms={'NAME': 'WORD', 'WORD': 'CONST', 'NUM': 'n', 'EQ': '='},
+    ),
+    TokCfg(
+        "catch-all-words",
+        # a word is anything that is not blank, '=' or the mark character; the mark (U+FEFF, which text files may
+        # start with) is a token of its own; words may hold other invisible characters
+        r"(?P<SPACE>\s+)|(?P<EQ>=)|(?P<MARK>\ufeff)|(?P<W>[^\s=\ufeff]+)",
+        ['WORD', '=', 'MARK'],
+        {'WORD': ['a', '\u00e9t\u00e9', 'x\u200by', '\u2060z', '-', '#', "''"], '=': ['='], 'MARK': ['\ufeff']},
+        [" ", "\n", "  "],
+        synonyms={'W': 'WORD', 'EQ': '='},
     ),
     TokCfg(
         "nine-letters",
